@@ -1,0 +1,17 @@
+// Read-only accessors for unexported pure code, used only by the /verif harness.
+// Compiled only with -tags verif; adds no behaviour and touches no existing line.
+
+//go:build verif && (!goexperiment.jsonv2 || !go1.25)
+
+package jsonwire
+
+func VerifParseHexUint16(b []byte) (uint16, bool) { return parseHexUint16(b) }
+func VerifHasEscapedUTF16Prefix(b []byte, lowerSurrogateHalf bool) bool {
+	return hasEscapedUTF16Prefix(b, lowerSurrogateHalf)
+}
+func VerifEscapeASCII() [128]uint8                      { return escapeASCII }
+func VerifAppendEscapedASCII(dst []byte, c byte) []byte { return appendEscapedASCII(dst, c) }
+func VerifAppendEscapedUnicode(dst []byte, r rune) []byte {
+	return appendEscapedUnicode(dst, r)
+}
+func VerifAppendEscapedUTF16(dst []byte, x uint16) []byte { return appendEscapedUTF16(dst, x) }
